@@ -400,6 +400,19 @@ def run_case(kind, params, ctx):
         return
     n_in, n_out = len(t["vin"]), len(t["vout"])
     base = flag & 0x1F
+    # Failure CLAUSE first: only "the signature check itself returned false" can be explained by the structural causes
+    # below (and only those keys may be known findings).  Anything else - non-strict DER, bad key encoding, wrong witness
+    # shape, hash mismatch, malformed script - is a different mechanism and gets its own key, so that a new defect
+    # cannot hide under an old key (re-audited after round 2 of the independent seeds).
+    malformed = [(i, w) for i, w in bad if "evaluated false" not in w]
+    if malformed:
+        w = malformed[0][1]
+        rc = ("not-strict-der" if "strict DER" in w else "pubkey-encoding" if "SEC1" in w else "witness-shape" if "witness" in w.lower() and "must have" in w
+              else "hash-mismatch" if "mismatch" in w or "EQUALVERIFY" in w else "nulldummy" if "dummy" in w else "script-malformed")
+        ctx.violation(f"sig-malformed/{family}/{rc}", f"sender {skind}, {n_in} inputs, flag {flag:#x}: inputs {[b[0] for b in malformed]}: {w}")
+        bad = [b for b in bad if b not in malformed]
+        if not bad:
+            return
     causes = []
     if family == "legacy":
         if n_in > 1:
